@@ -20,7 +20,7 @@ DIMACS = ['dimacs:cnf', 'dimacs:wcnf', 'dimacs:gcnf']
 AIGER = ['aiger:aag', 'aiger:aig']
 # property -> bounded native stand-in suites (standin/src/*.rs); bounded, never counted as proved
 STANDIN_FOR = {
-    'C01': FMT_SUITES, 'C02': ['reader'], 'C03': [s for s in FMT_SUITES if 'satlog' not in s and 'stream' not in s] + AIGER + DIMACS, 'C04': FMT_SUITES, 'C05': FMT_SUITES,
+    'C01': FMT_SUITES, 'C02': ['reader'], 'C03': [s for s in FMT_SUITES if 'satlog' not in s and 'stream' not in s] + AIGER + DIMACS, 'C04': FMT_SUITES, 'C05': FMT_SUITES + ['renumber'],
     'C06': DIMACS + AIGER + ['dimacs:satlog'], 'C07': DIMACS + ['dimacs:satlog'], 'C08': FMT_SUITES + DIMACS + AIGER, 'C09': STREAMING + ['reader'], 'C10': ['reader', 'mem'], 'C11': ['writer'],
     'C12': ['renumber'], 'C13': ['scan'], 'C14': ['reader', 'raw', 'fmt:btor2', 'fmt:cnf', 'fmt:gcnf', 'fmt:aag', 'fmt:aig'], 'C16': ['scan'],
 }
